@@ -394,6 +394,7 @@ def run(P, R, tier):
     findline_rule(P, R)
     clearvar_rule(P, R)
     savescope_rule(P, R)
+    powsign_rule(P, R)
     onrecord_rule(P, R)
     R.undecided += ["(e) arithmetic and string results for all programs", "(f) malformed programs produce a BASIC error, never a wrong value or a hang"]
     ens = [e for e in P.enums.values() if e["q"].endswith("BASIC_TOKEN")]
@@ -778,3 +779,40 @@ def savescope_rule(P, R):
                             "back: `SAVE x` followed by CALC_VALUE in one program hands the nested value to the outer host" % g["q"], file=g["file"], line=first_run, function=g["q"])
     if n < 4:
         R.anchor_missing(RULE, "only %d hosts read rate_moles after basic_run" % n)
+
+
+def powsign_rule(P, R):
+    """`a ^ k` with a negative base and an integer exponent is |a|^k with the sign of (-1)^k.  upexpr computes exp(k ln|a|) and negates the
+    result under a parity test of k.  The test is run concretely (engine/minieval.py) for k = -5 .. 5: it must hold exactly for the odd
+    exponents, the negative ones included (fmod(k, 2) == 1 fails for k = -3)."""
+    from .. import minieval as ME
+    RULE = "C17.powsign"
+    R.rule(RULE, "upexpr: a negative base raised to an integer power changes sign exactly for odd exponents, negative ones included", minimum=11)
+    f = P.one("PBasic::upexpr")
+
+    def negates(st):
+        st = st[2][0] if T.is_node(st) and st[0] == "Compound" and len(st[2]) == 1 else st
+        return T.is_node(st) and st[0] == "Bin" and st[2] == "=" and T.is_node(T.strip_casts(st[4])) and T.strip_casts(st[4])[0] == "Un" and T.strip_casts(st[4])[2] == "-" \
+            and " ".join(T.text(st[3]).split()) == " ".join(T.text(T.strip_casts(st[4])[3]).split())
+    tests = [x for x in T.walk(f["body"]) if x[0] == "If" and negates(x[3])]
+    if len(tests) != 1:
+        R.anchor_missing(RULE, "upexpr: %d sign flips under a condition" % len(tests))
+        return
+    cond = tests[0][2]
+    for kk in range(-5, 6):
+        def resolve(n, kk=kk):
+            t = " ".join(T.text(n).split())
+            if t.startswith("n2."):
+                return float(kk)
+            return None
+        try:
+            got = bool(ME.ev(cond, ME.Env(resolve=resolve)))
+        except ME.Unsupported as e:
+            R.anchor_missing(RULE, "upexpr: parity test not evaluable (%s)" % e)
+            return
+        inst = "k=%d" % kk
+        if got == (kk % 2 == 1):
+            R.ok(RULE, inst, "sign %s" % ("flipped" if got else "kept"))
+        else:
+            R.violation(RULE, inst, "for exponent %d the sign of (negative base)^k is %s: `%s` is not the parity of k" % (kk, "flipped" if got else "not flipped", T.text(cond)[:50]),
+                        file=f["file"], line=tests[0][1], function=f["q"])
